@@ -88,6 +88,25 @@ b('expiry-check-after-fee-check', [(H,EXP,''),(H,"""            // Do add the ht
 """,EXP+"""            // Do add the htlc to the payment state always, also if it has
 """)], ["C03","C04","C02","C13","C14","C19","C01"])
 
+b('handler-peeks-map-first', [(H,"""        {
+            let mut payments = self.payments.lock().await;
+            let payment_state = payments
+                .entry(*trampoline.invoice.payment_hash())""","""        let known = self.payments.lock().await.len();
+        trace!(known, "payments currently tracked");
+        {
+            let mut payments = self.payments.lock().await;
+            let payment_state = payments
+                .entry(*trampoline.invoice.payment_hash())""")], ["C07","C06","C02","C05","C04","C03","C11","C14","C12","C01"])
+b('handler-reads-height-first', [(H,"""        {
+            let mut payments = self.payments.lock().await;
+            let payment_state = payments
+                .entry(*trampoline.invoice.payment_hash())""","""        let height = self.params.block_provider.current_height().await;
+        trace!(height, "height when the htlc arrived");
+        {
+            let mut payments = self.payments.lock().await;
+            let payment_state = payments
+                .entry(*trampoline.invoice.payment_hash())""")], ["C07","C06","C02","C05","C04","C03","C11","C14","C12","C01"])
+
 def sh(cmd, cwd=None):
     return subprocess.run(cmd, shell=True, cwd=cwd, capture_output=True, text=True)
 only = sys.argv[1] if len(sys.argv)>1 else ''
